@@ -109,6 +109,8 @@ ValidTimes == {T1}
 \* strings Go's time.Parse accepts although they are no RFC 3339 date-times (hour not padded, decimal comma): a resolver
 \* value that is not representable as it is; it may be refused or normalised, it must not appear in the response as written
 LenientTimes == {"2021-03-04T5:06:07Z", "2021-03-04T05:06:07,25Z"}
+\* RFC 3339 texts with an offset whose instant, in UTC, lies outside the years 0000-9999: fine as they stand, not writable in UTC
+EdgeTimes == {"9999-12-31T23:30:00-01:00", "0000-01-01T00:00:00+01:00"}
 \* seconds since the epoch -> the time (times are named by their RFC 3339 UTC text)
 SecsTime == [ i0 |-> "1970-01-01T00:00:00Z", i42 |-> "1970-01-01T00:00:42Z", i1 |-> "1970-01-01T00:00:01Z", im1 |-> "1969-12-31T23:59:59Z",
               i2p24p1 |-> "1970-07-14T04:20:17Z", i2p31m1 |-> "2038-01-19T03:14:07Z", im2p31 |-> "1901-12-13T20:45:52Z",
@@ -520,7 +522,7 @@ LeafOutB(S, n, gv) ==
          ELSE ErrJ
     [] n = "Time" ->                       \* an RFC 3339 string
          IF gv.k = "time" THEN (IF gv.s \in FarTimes THEN ErrJ ELSE Str(gv.s))
-         ELSE IF gv.k = "str" THEN (IF gv.s \in ValidTimes THEN Str(gv.s) ELSE IF gv.s \in LenientTimes THEN MayJ(AnyTime) ELSE ErrJ)
+         ELSE IF gv.k = "str" THEN (IF gv.s \in ValidTimes THEN Str(gv.s) ELSE IF gv.s \in LenientTimes \cup EdgeTimes THEN MayJ(AnyTime) ELSE ErrJ)
          ELSE IF gv.k = "num" THEN (IF gv.p \in TimeOut THEN ErrJ ELSE MayJ(IF gv.p \in DOMAIN SecsTime THEN Str(SecsTime[gv.p]) ELSE AnyTime))
          ELSE ErrJ
     [] OTHER ->                            \* enum: the name of a declared value
@@ -610,7 +612,8 @@ LeafCoOut(S, n, gv, dv) ==
          ELSE ErrJ
     [] n = "Time" ->
          IF gv.k = "time" THEN (IF gv.s \in FarTimes THEN ErrJ ELSE Str(gv.s))
-         ELSE IF gv.k = "str" THEN (IF gv.s \in ValidTimes THEN Str(gv.s) ELSE IF gv.s \in LenientTimes THEN AnyTime ELSE ParseFail(gv, dv))
+         ELSE IF gv.k = "str" THEN (IF gv.s \in ValidTimes THEN Str(gv.s) ELSE IF gv.s \in LenientTimes THEN AnyTime
+                                    ELSE IF gv.s \in EdgeTimes THEN ErrJ ELSE ParseFail(gv, dv))
          ELSE IF gv.k = "num" /\ gv.g \in {"float64", "int64"} /\ gv.p \notin TimeOut
               THEN (IF gv.p \in DOMAIN SecsTime THEN Str(SecsTime[gv.p]) ELSE AnyTime)
          ELSE ErrJ
